@@ -26,6 +26,7 @@ __CPROVER_frees(p)
 ;
 
 bool decode_file(struct decoder *dec, const char *filename, FILE *f)
+__CPROVER_requires(f != NULL && filename != NULL)        /* C08: a stream that was really opened */
 __CPROVER_requires(__CPROVER_is_fresh(dec, sizeof(*dec)) && DECODER_OK(dec))
 __CPROVER_requires(VERIF_ANY_DIALECT || (dec->dialect == DIALECT && mon_map == &dec->xmap && mon_listo == dec->listo))
 __CPROVER_requires(VERIF_ANY_DIALECT || (fmon_on && mon_on))
@@ -41,6 +42,7 @@ L3_ENSURES
 ;
 
 static bool set_listo(const char *s, int *listo)
+__CPROVER_requires(s != NULL)
 __CPROVER_requires(__CPROVER_is_fresh(s, 16) && s[15] == 0)
 __CPROVER_requires(__CPROVER_is_fresh(listo, sizeof(*listo)) && G_DIAG_ROOM)
 __CPROVER_assigns(*listo, G)
@@ -61,6 +63,7 @@ __CPROVER_ensures(f == stdout ==> g_diag == __CPROVER_old(g_diag))
 ;
 
 bool internal_dump_all_dialects(const char *file_name)
+__CPROVER_requires(file_name != NULL)                   /* C08: handed to strcmp and fopen */
 __CPROVER_requires(G_DIAG_ROOM && !mon_on)
 __CPROVER_assigns(G)
 __CPROVER_ensures(g_diag >= __CPROVER_old(g_diag) && g_diag <= __CPROVER_old(g_diag) + 8)
